@@ -13,12 +13,19 @@ InFlight == {i \in Idx : chan[i] > 0}
 Pending  == {i \in outbox : i \notin tDelta}
 AnySrc(K) == \E ks \in Pick({s \in KindSeqs : \A j \in 1..Len(s) : s[j] \in K}), lose \in Pick({FALSE, FALSE, TRUE}) : SrcApply(ks, lose)
 Twice == {i \in Idx : chan[i] >= 2}
-AnyDeliver ==
-  \/ \E i \in Pick(InFlight) : Deliver(<<i>>)
-  \/ \E i \in Pick(InFlight), j \in Pick(InFlight) : Deliver(<<i, j>>)
-  \/ \E i \in Pick(InFlight), j \in Pick(InFlight), k \in Pick(InFlight) : Deliver(<<i, j, k>>)
-  \/ (Twice # {} /\ \E i \in Pick(Twice), j \in Pick(InFlight) : Deliver(<<i, j, i>>))     \* replay inside one batch
-  \/ (Twice # {} /\ \E i \in Pick(Twice) : Deliver(<<i, i>>))
+Fresh == {i \in InFlight : i \notin tDelta}
+DeliverAny(mate) ==
+  \/ \E i \in Pick(InFlight) : Deliver(<<i>>, mate)
+  \/ \E i \in Pick(InFlight), j \in Pick(InFlight) : Deliver(<<i, j>>, mate)
+  \/ \E i \in Pick(InFlight), j \in Pick(InFlight), k \in Pick(InFlight) : Deliver(<<i, j, k>>, mate)
+  \/ (Twice # {} /\ \E i \in Pick(Twice), j \in Pick(InFlight) : Deliver(<<i, j, i>>, mate))     \* replay inside one batch
+  \/ (Twice # {} /\ \E i \in Pick(Twice) : Deliver(<<i, i>>, mate))
+  \* aimed: a delta the target has not applied yet, alone or with one more, so that with a stale or
+  \* refused mate its first application goes through the fallback / is thrown away with the batch
+  \/ (Fresh # {} /\ mate # "none" /\ \E i \in Pick(Fresh) : Deliver(<<i>>, mate))
+  \/ (Fresh # {} /\ mate # "none" /\ \E i \in Pick(Fresh), j \in Pick(InFlight) : Deliver(<<j, i>>, mate))
+\* one die: half of the target batches carry only deltas, a third a stale mate, a sixth a refused one
+AnyDeliver == \E d \in Pick(1..6) : DeliverAny(IF d <= 3 THEN "none" ELSE IF d <= 5 THEN "stale" ELSE "refused")
 Fault == \E i \in Pick(InFlight) : Dup(i) \/ Drop(i)
 AnyAck == \E i \in Pick(outbox \cap tDelta) : Ack(i)
 Filler == IF bare THEN Resupply ELSE \E who \in Pick({"src", "tgt"}) : Restart(who)
